@@ -293,6 +293,7 @@ def main(argv):
     ap.add_argument("--types")
     a = ap.parse_args(argv)
     seed = int(os.environ.get("VERIF_SEED", "0") or 0)
+    os.environ["VERIF_TIER_ACTIVE"] = a.tier
     if a.cmd == "check" and a.tier == "quick":
         from . import pipeline
         pipeline.DEADLINE = time.time() + float(os.environ.get("VERIF_BUDGET", "660"))
